@@ -648,6 +648,16 @@ class Engine:
                     continue
             raise Unsupported('del form')
 
+    def x_With(self, n):
+        """with <ctx> [as v]: body - the context value's model supplies `enter(eng)` (what __enter__ returns); __exit__
+        is taken to release the resource only (no exception is swallowed): exceptions of the body propagate."""
+        for item in n.items:
+            ctx = self.eval(item.context_expr)
+            val = ctx.enter(self) if hasattr(ctx, 'enter') else ctx
+            if item.optional_vars is not None:
+                self.store(item.optional_vars, val)
+        self.exec_block(n.body)
+
     def x_Try(self, n):
         if n.finalbody:
             raise Unsupported('try/finally')
